@@ -62,8 +62,13 @@ impl<T: Write + Send + 'static> Worker<T> {
             let handle_result = self.handle_try_recv(&try_recv_result);
             worker_state = handle_result?;
         }
-        self.writer.flush()?;
-        Ok(worker_state)
+        // A flush error must not hide a `Shutdown` or `Disconnected` state from
+        // the worker loop: it has to see it to stop and release the writer.
+        let flushed = self.writer.flush();
+        match worker_state {
+            WorkerState::Shutdown | WorkerState::Disconnected => Ok(worker_state),
+            _ => flushed.map(|()| worker_state),
+        }
     }
 
     /// Creates a worker thread that processes a channel until it's disconnected
